@@ -189,7 +189,17 @@ fn tracker_visit_expr<'a>(expr: &ast::Expr<'a>, state: &mut AssignmentTracker<'a
             tracker_visit_expr_opt(&slice.step, state);
         }
         ast::Expr::Call(expr) => {
-            tracker_visit_expr(&expr.expr, state);
+            // `super()` and `self.block()` are resolved by the engine, as
+            // plain variables `super` and `self` come from the context.
+            let engine_call = match expr.identify_call() {
+                ast::CallType::Function("super") => true,
+                #[cfg(feature = "multi_template")]
+                ast::CallType::Block(_) => true,
+                _ => false,
+            };
+            if !engine_call {
+                tracker_visit_expr(&expr.expr, state);
+            }
             expr.args
                 .iter()
                 .for_each(|x| tracker_visit_callarg(x, state));
@@ -215,7 +225,6 @@ fn track_assign<'a>(expr: &ast::Expr<'a>, state: &mut AssignmentTracker<'a>) {
 fn track_walk<'a>(node: &ast::Stmt<'a>, state: &mut AssignmentTracker<'a>) {
     match node {
         ast::Stmt::Template(stmt) => {
-            state.assign("self");
             stmt.children.iter().for_each(|x| track_walk(x, state));
         }
         ast::Stmt::EmitExpr(expr) => tracker_visit_expr(&expr.expr, state),
@@ -288,7 +297,6 @@ fn track_walk<'a>(node: &ast::Stmt<'a>, state: &mut AssignmentTracker<'a>) {
         #[cfg(feature = "multi_template")]
         ast::Stmt::Block(stmt) => {
             state.push();
-            state.assign("super");
             stmt.body.iter().for_each(|x| track_walk(x, state));
             state.pop();
         }
